@@ -527,6 +527,65 @@ func c11R6(ic *IC, r *Report) {
 					"the symbol of a package-level variable defined here takes its frame index from "+got+" instead of a direct scope.add call: a definition evaluated later can take over the slot of a variable that functions compiled earlier still read, so piecewise evaluation differs from evaluating the program whole")
 			case kind == "funcSym":
 				nFunc++
+				// a redefinition installs this fresh symbol too: no earlier statement of the same
+				// block leaves it because a symbol of that name already exists
+				path := enclosingPath(fi.Decl.Body, x)
+				var store ast.Stmt
+				var siblings []ast.Stmt
+				for i := len(path) - 1; i > 0; i-- {
+					if as, ok := path[i].(*ast.AssignStmt); ok && store == nil {
+						store = as
+						switch b := path[i-1].(type) {
+						case *ast.BlockStmt:
+							siblings = b.List
+						case *ast.CaseClause:
+							siblings = b.Body
+						}
+					}
+				}
+				var mapExpr string
+				if as, ok := store.(*ast.AssignStmt); ok && len(as.Lhs) == 1 {
+					if ix, ok := unparen(as.Lhs[0]).(*ast.IndexExpr); ok {
+						mapExpr = types.ExprString(ix) // the same map and the same key
+					}
+				}
+				kept := ""
+				for _, st := range siblings {
+					if st == store {
+						break
+					}
+					ifs, ok := st.(*ast.IfStmt)
+					if !ok || mapExpr == "" {
+						continue
+					}
+					reads := false
+					for _, part := range []ast.Node{ifs.Init, ifs.Cond} {
+						if part == nil {
+							continue
+						}
+						ast.Inspect(part, func(k ast.Node) bool {
+							if ix, ok := k.(*ast.IndexExpr); ok && types.ExprString(ix) == mapExpr {
+								reads = true
+							}
+							return true
+						})
+					}
+					leaves := false
+					ast.Inspect(ifs.Body, func(k ast.Node) bool {
+						switch k.(type) {
+						case *ast.FuncLit:
+							return false
+						case *ast.BranchStmt, *ast.ReturnStmt:
+							leaves = true
+						}
+						return true
+					})
+					if reads && leaves {
+						kept = ic.pos(ifs.Pos())
+					}
+				}
+				r.Check(kept == "", "R11.6", fmt.Sprintf("gta/function-symbol#%d/redefinition-installs-a-fresh-symbol", nFunc), ic.pos(x.Pos()), "the symbol literal is stored whether or not a symbol of that name exists",
+					"before installing the symbol of a function declaration, gta leaves the block when "+mapExpr+" already holds a symbol of that name (at "+kept+"): the existing symbol is kept and only completed later by cfg, so closures compiled in between - function literals of the redefining chunk calling the function - bind to the old body, unlike the program evaluated whole")
 			}
 		case *ast.AssignStmt:
 			// only in the case of function declarations: a variable symbol may be completed
